@@ -2,7 +2,7 @@
 # tools/matrix.sh [parallel] : run every seeded change and every mutant against the quick check(s) of its property, each in its own
 # scratch worktree (J2M_REPO) so that /repo is never touched; writes selftest/MATRIX.txt (sorted)
 P=${1:-3}
-OUT=/verif/selftest/MATRIX.txt
+OUT=${MATRIX_OUT:-/verif/selftest/MATRIX.txt}
 JOBS=$(mktemp)
 for d in /verif/seeded/C*; do
   id=$(basename $d)
@@ -17,8 +17,9 @@ done < /verif/selftest/mutants/REVERTS.txt
 for m in percent_ge_to_gt:C05 number_ge_to_gt:C05 open_before_generate:C17 status_swallow:C17 extend_to_assign:C16 cli_no_anchor:C13 preamble_before_imports:C19 conv_dict_arg0:C18 conv_dict_token:C18 conv_literal_raises:C18; do
   echo "mutant=${m%%:*} /verif/selftest/mutants/${m%%:*}.diff ${m##*:}" >> $JOBS
 done
+export MATRIX_OUT_TMP=$OUT.tmp
 : > $OUT.tmp
-xargs -P $P -L 1 sh -c '/verif/tools/mutant_wt.sh "$1" "$2" 2>&1 | sed "s/^mutant=[^ ]*/$0/" | cut -c1-200 >> /verif/selftest/MATRIX.txt.tmp' < $JOBS
+xargs -P $P -L 1 sh -c '/verif/tools/mutant_wt.sh "$1" "$2" 2>&1 | sed "s/^mutant=[^ ]*/$0/" | cut -c1-200 >> $MATRIX_OUT_TMP' < $JOBS
 sort $OUT.tmp > $OUT
 rm -f $OUT.tmp $JOBS
 echo MATRIX-DONE >> $OUT
